@@ -94,49 +94,24 @@ def _flag_names(e: ast.AST) -> set[str] | None:
     return None
 
 
-def ci_string_facts(check: Check, repo: Repo) -> None:
-    """CASE: a `^"..."` literal is its escaped text matched with simple case folding (re.I and nothing else);
-    advancing by len(value) instead of the match end is right only because that folding is one-to-one."""
-    init = repo.func(TERMINALS, "CIString.__init__")
-    construct = f"{TERMINALS}::CIString.__init__"
-    compiles = [n for n in ast.walk(init) if isinstance(n, ast.Call) and ast.unparse(n.func) in ("re.compile", "regex.compile")]
-    if len(compiles) != 1:
-        raise AnalysisError(f"anchor vanished: {construct} compiles {len(compiles)} patterns")
-    c = compiles[0]
-    pat = c.args[0] if c.args else None
-    flags_e = c.args[1] if len(c.args) > 1 else next((k.value for k in c.keywords if k.arg == "flags"), None)
-    ok = isinstance(pat, ast.Call) and ast.unparse(pat.func) in ("re.escape", "regex.escape") and ast.unparse(pat.args[0]) in ("value", "self.value")
-    check.oblige("CASE", construct, "the pattern is re.escape(value)" if ok else "CIString does not compile the escaped literal", ok,
-                 finding=Finding("CASE", construct, "CIString does not compile the escaped literal", f"pattern argument is `{ast.unparse(pat) if pat is not None else None}`", {}))
-    flags = _flag_names(flags_e) if flags_e is not None else set()
-    if flags is None:
-        raise AnalysisError(f"{construct}: flags `{ast.unparse(flags_e)}` are not a plain union of re flags")
-    ok = flags == {"I", "A"}
-    sig = "CIString is not compiled with exactly re.I | re.A"
-    check.oblige("CASE", construct, "flags are exactly re.I | re.A (pest ignores the case of ASCII letters only; one-to-one folding)" if ok else sig, ok,
-                 finding=Finding("CASE", construct, sig, f"flags {sorted(flags)}: without re.I case is not ignored; without re.A non-ASCII characters fold too (\"k\" ~ U+212A), which pest does not do and the optimizer's character class does not reproduce; with VERSION1/FULLCASE a literal matches text of another length (\"strasse\" ~ \"Stra\u00dfe\") while the interpreter advances by len(value)", {"flags": sorted(flags)}))
-    parse = repo.func(TERMINALS, "CIString.parse")
-    adv = [n for n in ast.walk(parse) if isinstance(n, (ast.AugAssign, ast.Assign)) and "state.pos" in ast.unparse(n.target if isinstance(n, ast.AugAssign) else n.targets[0])]
-    texts = [ast.unparse(n) for n in adv]
-    ok = bool(adv) and all(t in ("state.pos += len(self.value)", "state.pos = match.end()", "state.pos = m.end()", "state.pos += len(match.group())", "state.pos += len(match.group(0))") for t in texts)
-    check.oblige("CASE", f"{TERMINALS}::CIString.parse", "advances by the literal's length (= match length under simple folding) or to the match end" if ok else "CIString.parse advances by something other than the matched text", ok,
-                 finding=Finding("CASE", f"{TERMINALS}::CIString.parse", "CIString.parse advances by something other than the matched text", f"advance statements: {texts}", {}))
+def range_and_case(check: Check, repo: Repo, tier: str = "quick") -> None:
+    """RANGE / CASE: decided semantically (sa/termsem.py): the pattern each sibling of Range / CIString compiles is
+    read back and its denotation compared, over all code points, with the definition; String, and any terminal
+    that does not go through a pattern, is evaluated on inputs chosen by their relation to the literal.  (The
+    former text facts - `re.escape(self.start)` in the source, flags spelled re.I | re.A - are gone: they fired on
+    legitimate rewrites, e.g. inline flags, and could not decide a comparison of lowered text.)"""
+    from ..termsem import check_terminals
 
-
-def range_and_case(check: Check, repo: Repo) -> None:
-    pat = repo.method_or_none(TERMINALS, "Range", "_pattern")
-    if pat is not None:
-        src = ast.unparse(pat)
-        ok = "self.start > self.stop" in src and "(?!)" in src and "re.escape(self.start)" in src and "re.escape(self.stop)" in src
-        check.oblige("RANGE", f"{TERMINALS}::Range._pattern", "[start-stop] of escaped endpoints; empty when start > stop" if ok else "Range._pattern is not the class of its escaped endpoints (empty when reversed)", ok)
-        init = ast.unparse(repo.func(TERMINALS, "Range.__init__"))
-        gen = ast.unparse(repo.func(TERMINALS, "Range.generate"))
-        ok = "re.compile(self._pattern())" in init and "self._pattern()" in gen
-        check.oblige("RANGE", f"{TERMINALS}::Range", "parse() and generate() derive their pattern from the same method" if ok else "Range.__init__/generate no longer share _pattern()", ok)
-    ci_string_facts(check, repo)
-    st = ast.unparse(repo.func(TERMINALS, "String.parse"))
-    ok = "re.I" not in st and "lower()" not in st and "upper()" not in st and "casefold" not in st
-    check.oblige("CASE", f"{TERMINALS}::String.parse", "sensitive literals are compared exactly" if ok else "String.parse folds case", ok)
+    n, bad = check_terminals(repo, "C12 TERM-SEM", tier == "thorough")
+    check.count("terminal_model_points", n)
+    check.oblige("TERM-SEM", TERMINALS, f"Range, CIString and String denote their definitions in both siblings (exact denotation of every compiled pattern; {n} model inputs)", True, sample=True)
+    cats2: dict[tuple[str, str], list[str]] = {}
+    for con, cat, msg in bad:
+        if not cat.startswith("the siblings disagree"):  # C01's part
+            cats2.setdefault((con, cat), []).append(msg)
+    for (con, cat), msgs in sorted(cats2.items()):
+        rule = "RANGE" if con.endswith("Range") else "CASE"
+        check.oblige(rule, con, cat, False, sample=True, finding=Finding(rule, con, cat, f"{con.split('::')[-1]}: {cat}: e.g. {msgs[0]} ({len(msgs)} model points)", {"witness": msgs[0], "more": msgs[1:3]}))
     # case variants in a squashed choice: decided end to end on the model (k / K / U+212A; sa/squashsem.py)
     from ..squashsem import check_squash
 
@@ -333,7 +308,7 @@ def literal_tokens(check: Check, repo) -> None:
 
 def run(tier: str) -> Check:
     check = Check("C12", tier, EXPLANATION)
-    check.rules = ["BUILTIN-TABLE", "RANGE", "CASE", "CONST-PARITY", "PATTERN-FRAGMENT", "MERGE", "ESCAPE-TABLE", "CURSOR", "UNESCAPE-ONCE", "LITERAL-TOKENS"]
+    check.rules = ["BUILTIN-TABLE", "RANGE", "CASE", "CONST-PARITY", "PATTERN-FRAGMENT", "MERGE", "ESCAPE-TABLE", "CURSOR", "UNESCAPE-ONCE", "LITERAL-TOKENS", "TERM-SEM"]
     check.assumptions = [
         "the regex engine's own Unicode tables (\\p{...}) and its handling of escaped characters inside classes are trusted",
         "pest's built-in definitions are frozen in the checker from the pest book ('Built-in rules')",
@@ -341,7 +316,7 @@ def run(tier: str) -> Check:
     ]
     repo = Repo()
     builtin_tables(check, repo)
-    range_and_case(check, repo)
+    range_and_case(check, repo, tier)
     gencheck.constant_parity(check, repo)
     pattern_fragments(check, repo)
     merge_arithmetic(check, repo, tier)
@@ -358,6 +333,7 @@ def run(tier: str) -> Check:
     unescape_once(check, repo)
     literal_tokens(check, repo)
     check.floor("literal_token_expressions", 8)
+    check.floor("terminal_model_points", 700)
     check.floor("unescape_paths", 3)
     check.floor("decoder_model_texts", 500)
     check.floor("builtin_entries", 11)
